@@ -1556,6 +1556,12 @@ impl Vm {
             .stack
             .truncate(handler.init_stack_size);
         self.push(exc_object);
+        if self.active_fiber().frames.len() > handler.frame_count {
+            // The frame that recorded the throw site is being discarded: from here on the site to
+            // report is the call in the surviving frame through which the exception passed.
+            let call_site = self.active_fiber().frames[handler.frame_count - 1].ip;
+            self.active_fiber_mut().error_ip = Some(call_site);
+        }
         self.active_fiber_mut().frames.truncate(handler.frame_count);
         self.handling_exception = handler.has_catch_block();
         if !self.handling_exception {
